@@ -663,7 +663,7 @@ def _bool_taint(body, seeds):
     return t
 
 
-def eval_guard(body, atom_vals, max_states=20000, start=0, env0=None, extra_tracked=(), no_nodes=()):
+def eval_guard(body, atom_vals, max_states=20000, start=0, env0=None, extra_tracked=(), no_nodes=(), frozen=()):
     """Path-sensitive abstract walk of the CFG under a valuation of atom calls.
 
     atom_vals: {bb_of_call: bool}  — the value returned by the (bool-returning) call terminating block bb.
@@ -695,6 +695,8 @@ def eval_guard(body, atom_vals, max_states=20000, start=0, env0=None, extra_trac
         reach.add(bb)
         env = dict(envt)
         for s in body.blocks[bb]["s"]:
+            if s[0] == "A" and len(s[1]) == 1 and s[1][0] in frozen:
+                continue
             if s[0] == "A" and len(s[1]) == 1 and s[1][0] in tracked:
                 v = _eval_rv(s[2], env)
                 if v is None:
